@@ -1,5 +1,5 @@
 """Rule context, reporting, evidence, known findings."""
-import os, sys, json, time, re
+import os, re, sys, json, time, re
 from . import extract as X
 from .facts import load_unit
 
@@ -178,7 +178,7 @@ def finish(ctx, siblings, t0, seed, cached, quiet=False):
         'seed': seed,
         'level': 'other',
         'coverage': {
-            'explanation': RULE_DOC.get(ctx.prop, {}).get('explanation', ''),
+            'explanation': RULE_DOC.get(ctx.prop, {}).get('explanation', '') + ' Rules evaluated in this run: %s; the statement of each is under rule_texts, the obligations it produced under samples.' % ', '.join(sorted(ctx.rules_run, key=lambda r: (r.split('.')[0], int(re.sub(r'\D', '', r.split('.')[1]) or 0)) if '.' in r else (r, 0))),
             'evaluations': len(ctx.obligations) + sib_obl,
             'distinct_nontrivial': len(sites),
             'rule': 'one evaluation = one rule instance (rule id x resolved anchor: call site, CFG edge, field, table row) decided on the '
